@@ -287,15 +287,16 @@ def force_permutation(prog):
     entries on the way (filter, take, skip, dedup, ...) yields a `VarOrder` that lists one variable twice and omits another."""
     fn = prog.find1(name="force_order", self_adt="repr::cnf::Cnf", unit="rsdd-lib")
     te = fn.terms
-    names = [cs.callee.name for cs in te.calls]
-    for g in prog.lib_fns:
-        if g.npath.startswith(fn.npath + "::{closure"):
-            names += [cs.callee.name for cs in g.terms.calls]
-    need = [n for n in ("zip", "enumerate", "collect") if n not in names] + \
+    # the round may be split over private helpers of Cnf (force_update, average_cogs): all of them are read
+    bodies = [g for g in canon.local_bodies(prog, fn, depth=2) if g.name not in ("center_of_gravity", "average_span")]
+    calls = [cs for g in bodies for cs in g.terms.calls]
+    names = [cs.callee.name for cs in calls]
+    need = [n for n in ("enumerate", "collect") if n not in names] + \
            ([] if any(n.startswith("sort") for n in names) else ["sort*"])
     if need:
-        raise CheckerError("VO force_order: pipeline stages %s not found (anchor moved?)" % need)
-    bad = [cs for cs in te.calls if cs.callee.name in DROPPING and
+        return inst("VO", "%s:permutation-preserved" % fn.npath, UNDECIDED, fn, None,
+                    "pipeline stages %s of the re-sort not found" % need)
+    bad = [cs for cs in calls if cs.callee.name in DROPPING and
            ("iter" in cs.callee.key().lower() or "Vec" in cs.callee.key() or "slice" in cs.callee.key())]
     return inst("VO", "%s:permutation-preserved" % fn.npath, VIOLATION if bad else OK, fn, bad[0].line if bad else None,
                 ("the re-sort pipeline calls %s (line %d): entries can be dropped, so the positions written back are no longer a "
